@@ -46,6 +46,7 @@ type Shared struct {
 	Summarize    map[string]bool // functions summarised as pure callees
 	LazySummary  bool            // explore summarised callees without feasibility checks (usually slower)
 	MaxWall      time.Duration   // wall-clock budget per harness (0 = none); exceeding it is a BOUND outcome
+	deadline     time.Time       // paths still running one minute after the budget are cut (BOUND)
 	validations  int64
 }
 
@@ -268,7 +269,9 @@ func (sh *Shared) Run(pkgPath, fnName string, workers int, maxPaths int) (*Stats
 	p.cond = sync.NewCond(&p.mu)
 	p.work = append(p.work, nil)
 	start := time.Now()
+	sh.deadline = time.Time{}
 	if sh.MaxWall > 0 {
+		sh.deadline = start.Add(sh.MaxWall + time.Minute)
 		go func() {
 			for {
 				time.Sleep(time.Second)
